@@ -5,6 +5,7 @@ import (
 	"fmt"
 	"path"
 	"path/filepath"
+	"regexp"
 	"strings"
 
 	"simrt"
@@ -178,6 +179,39 @@ func corruptBeforeBuild(p *Project, r *Rand) {
 	}
 }
 
+var pathLineRE = regexp.MustCompile(`(?m)^([ \t]*(?:GET|POST|PUT|PATCH|DELETE|URL)[ \t]+)(/[^ \t\r\n]*)`)
+
+// spellDifferently rewrites the URL paths of a project (and, sometimes, the case of its @names).
+func spellDifferently(p *Project, r *Rand) {
+	for i := range p.Files {
+		f := &p.Files[i]
+		if strings.HasSuffix(f.Path, "/") {
+			continue
+		}
+		s := pathLineRE.ReplaceAllStringFunc(string(f.Data), func(m string) string {
+			sm := pathLineRE.FindStringSubmatch(m)
+			path := sm[2]
+			switch r.Pick2(0, 0, 1, 1, 2, 3) { // each path on its own
+			case 0:
+				if strings.HasSuffix(path, "/") && len(path) > 1 {
+					path = strings.TrimSuffix(path, "/")
+				} else {
+					path += "/"
+				}
+			case 1:
+				path = "/" + path
+			case 2:
+				path = strings.ToUpper(path)
+			default:
+				path = strings.Replace(path[:1]+strings.Replace(path[1:], "/", "//", 1), "///", "//", -1) + "/"
+			}
+			return sm[1] + path
+		})
+		f.Data = []byte(s)
+	}
+	p.Features = append(p.Features, "prior:spelled-differently")
+}
+
 func (r *Rand) Pick2(a ...int) int { return a[r.Intn(len(a))] }
 
 func (c06Engine) Gen(job *Job) *Case {
@@ -239,6 +273,15 @@ func (c06Engine) Gen(job *Job) *Case {
 			e.MapMode, e.MapSites = 0, nil
 			fresh = true
 		}
+		if !fresh && i == n-1 && r.Chance(1, 4) {
+			// a fresh process whose FIRST build is a near-variant of the observed project (its sibling
+			// spelling): in this worker the reference build has long filled every process-wide memo
+			// with the project's own spelling - only a new process lets the sibling come first
+			e.Fresh, e.Sibling = true, true
+			e.Prior = r.Range(1, 2)
+			e.MapMode, e.MapSites = 0, nil
+			fresh = true
+		}
 		if i == 2 && r.Chance(1, 8) {
 			// soak repetition: small projects many times, larger ones a few dozen times
 			k := r.Pick2(10, 20, 50)
@@ -297,11 +340,21 @@ func observe(c *Case, e Env, seed uint64) (text string, permuted []string) {
 		pr := NewRand(seed ^ 0x5151)
 		for i := 0; i < e.Prior; i++ {
 			var q *Project
-			switch pr.Intn(4) {
+			kind := pr.Intn(5)
+			if e.Sibling && i == 0 {
+				kind = 2
+			}
+			switch kind {
 			case 0:
 				q = genValid(pr.Fork())
 			case 1:
 				q = genMultiDefect(pr.Fork())
+			case 2:
+				// a near-variant of the SAME project: the same paths and names spelled a little
+				// differently (trailing or doubled slashes, another case) - whatever is remembered
+				// under a normalised key meets its sibling in the observed build
+				q = c.Project.Clone()
+				spellDifferently(q, pr)
 			default:
 				// an older, broken version of the SAME project (the edit-build-fix cycle of an editor
 				// or a server that rebuilds on save): same names, some bytes damaged
